@@ -34,6 +34,7 @@ type c19Track struct {
 	media     string // argument given to AddEmptyTrack
 	timescale uint32
 	lang      string
+	sps       []byte // AVC: the supplied sequence parameter set (profile_idc seeded within the high family)
 	desc      string // avc1 avc3 hvc1 hev1 aac ac3 ec3 wvtt stpp none
 	includePS bool
 	aacObj    byte
@@ -153,6 +154,15 @@ func c19Build(r *sim.Run) (*mp4.InitSegment, []c19Track, error) {
 			tr.media, tr.desc = []string{"stpp", "subtitle"}[t.Draw(2)], "stpp"
 			tr.str1 = []string{"", "http://www.w3.org/ns/ttml", "urn:x a b"}[t.Draw(3)]
 		}
+		if tr.desc == "avc1" || tr.desc == "avc3" {
+			// the same picture format under another profile_idc of the family that shares the SPS syntax (High,
+			// High 10, High 4:2:2, High 4:4:4 Predictive, CAVLC 4:4:4, scalable/multiview/3D profiles)
+			tr.sps = append([]byte(nil), c19AvcSPS...)
+			if t.Chance(300) {
+				tr.sps[1] = []byte{110, 122, 244, 44, 83, 86, 118, 128, 139, 134, 135}[t.Draw(11)]
+				r.Probe("avc-profile-other-than-100")
+			}
+		}
 		if i == n-1 && t.Chance(60) {
 			// the history stops right after AddEmptyTrack: the last track has no codec descriptor (empty stsd) yet
 			tr.desc = "none"
@@ -165,7 +175,7 @@ func c19Build(r *sim.Run) (*mp4.InitSegment, []c19Track, error) {
 		var err error
 		switch tr.desc {
 		case "avc1", "avc3":
-			err = trak.SetAVCDescriptor(tr.desc, [][]byte{c19AvcSPS}, [][]byte{c19AvcPPS}, tr.includePS)
+			err = trak.SetAVCDescriptor(tr.desc, [][]byte{tr.sps}, [][]byte{c19AvcPPS}, tr.includePS)
 		case "hvc1", "hev1":
 			err = trak.SetHEVCDescriptor(tr.desc, [][]byte{c19HevcVPS}, [][]byte{c19HevcSPS}, [][]byte{c19HevcPPS}, nil, tr.includePS)
 		case "aac":
@@ -328,7 +338,7 @@ func c19CheckBytes(r *sim.Run, data []byte, model []c19Track) {
 				r.Violate("c19-dimensions", "%s: tkhd %dx%d, parameter set codes %dx%d", who, tw, th, ww, wh)
 			}
 			cfgType := "avcC"
-			sets := [][]byte{c19AvcSPS, c19AvcPPS}
+			sets := [][]byte{tr.sps, c19AvcPPS}
 			if tr.desc[0] == 'h' {
 				cfgType = "hvcC"
 				sets = [][]byte{c19HevcVPS, c19HevcSPS, c19HevcPPS}
@@ -351,8 +361,8 @@ func c19CheckBytes(r *sim.Run, data []byte, model []c19Track) {
 				}
 			}
 			if tr.desc[0] == 'a' { // profile, compatibility, level come from SPS bytes 1..3
-				if len(cb) < 4 || !bytes.Equal(cb[1:4], c19AvcSPS[1:4]) {
-					r.Violate("c19-codec-config", "%s: avcC profile/compat/level %x, SPS has %x", who, cb[1:4], c19AvcSPS[1:4])
+				if len(cb) < 4 || !bytes.Equal(cb[1:4], tr.sps[1:4]) {
+					r.Violate("c19-codec-config", "%s: avcC profile/compat/level %x, SPS has %x", who, cb[1:4], tr.sps[1:4])
 				}
 			}
 		case "aac":
